@@ -163,3 +163,16 @@ func VerifConsts() map[string]uint64 {
 		"maxObjectSeg": uint64(maxObjectSeg),
 	}
 }
+
+// VerifPutRaw stores an arbitrary value under the encoded name, bypassing the 8-byte version header that Put writes
+// (to exercise readers on a bucket that holds foreign / truncated values).
+func (s *BoltStore) VerifPutRaw(name enc.Name, val []byte) error {
+	key := s.encodeName(name)
+	return s.db.Update(func(tx *bolt.Tx) error {
+		b := tx.Bucket(BoltBucket)
+		if b == nil {
+			return ErrBoltNoBucket
+		}
+		return b.Put(key, val)
+	})
+}
